@@ -34,6 +34,25 @@ type Config struct {
 	// Extended adds ws.StateExtended to the writer's state (the state an endpoint has
 	// after negotiating an extension); masking must depend on the side bit only.
 	Extended bool `json:"extended,omitempty"`
+	// Reuse gives the writer a previous life before the history runs:
+	//   ""      freshly constructed;
+	//   "reset" constructed per Ctor/N for the side PrevClient with opcode PrevOp,
+	//           extensions attached and (PrevUse&4) flushing disabled, used per
+	//           PrevUse on a throw-away destination, then Reset(dest, State(), Op);
+	//   "pool"  (Ctor "get") the previous life is handed to PutWriter and the
+	//           writer under test comes from GetWriter(dest, State(), Op, N); for
+	//           N a power of two the previous life is built with NewWriterSize(N),
+	//           whose Size() is the pool class N, so that the pool can hand the
+	//           same object back (nothing is assumed about identity).
+	// Everything else is as for a fresh writer: Reset discards buffered data,
+	// clears the error and options and re-lays the buffer out for the new side.
+	Reuse      string `json:"reuse,omitempty"`
+	PrevClient bool   `json:"prev_client,omitempty"`
+	PrevOp     byte   `json:"prev_op,omitempty"`
+	// PrevUse&3: 0 unused, 1 one byte written and flushed, 2 one byte left
+	// buffered, 3 a write larger than the buffer (a non-final frame is out) and
+	// no final flush. PrevUse&4: DisableFlush() in the previous life.
+	PrevUse int `json:"prev_use,omitempty"`
 }
 
 // Extension bits of Config.Ext.
@@ -84,6 +103,15 @@ func hdrLen(client bool, n int) int {
 // pool's power-of-two class when there is one). It is only used to keep
 // generated configurations inside the constructors' documented domain.
 func RawLen(c Config) int {
+	if c.Reuse != "" {
+		// the backing buffer is the one the previous life allocated
+		p := c
+		p.Reuse, p.Client = "", c.PrevClient
+		if c.Reuse == "pool" && poolClass(c.N) {
+			p.Ctor = "size"
+		}
+		return RawLen(p)
+	}
 	def := wsutil.DefaultWriteBuffer
 	switch c.Ctor {
 	case "new":
@@ -125,7 +153,23 @@ func MinRaw(client bool) int {
 }
 
 // Legal reports whether the constructor accepts c (does not panic by contract).
-func Legal(c Config) bool { return RawLen(c) >= MinRaw(c.Client) }
+func Legal(c Config) bool {
+	if c.Reuse != "" && RawLen(c) < MinRaw(c.PrevClient) {
+		return false
+	}
+	if c.Reuse == "pool" {
+		// the pool may hand back the old object or GetWriter builds a new one
+		f := c
+		f.Reuse = ""
+		if RawLen(f) < MinRaw(c.Client) {
+			return false
+		}
+	}
+	return RawLen(c) >= MinRaw(c.Client)
+}
+
+// poolClass reports whether n is one of the writer pool's size classes.
+func poolClass(n int) bool { return n >= 128 && n <= 65536 && n&(n-1) == 0 }
 
 // Extensions builds fresh extension objects for the Ext bits.
 func Extensions(ext int) []wsutil.SendExtension {
@@ -166,22 +210,63 @@ func ExpectRsv(ext int, op byte, first bool) byte {
 // New constructs and configures a writer per c. c must be Legal.
 func New(c Config, dest io.Writer) *wsutil.Writer {
 	var w *wsutil.Writer
-	op := ws.OpCode(c.Op)
-	switch c.Ctor {
-	case "new":
-		w = wsutil.NewWriter(dest, c.State(), op)
-	case "size":
-		w = wsutil.NewWriterSize(dest, c.State(), op, c.N)
-	case "bufsize":
-		w = wsutil.NewWriterBufferSize(dest, c.State(), op, c.N)
-	case "buffer":
-		w = wsutil.NewWriterBuffer(dest, c.State(), op, make([]byte, c.N))
-	case "get":
-		w = wsutil.GetWriter(dest, c.State(), op, c.N)
-	default:
-		panic("wh: unknown ctor " + c.Ctor)
+	if c.Reuse == "" {
+		w = construct(c.Ctor, c.N, dest, c.State(), ws.OpCode(c.Op))
+	} else {
+		w = secondLife(c, dest)
 	}
 	Configure(w, c)
+	return w
+}
+
+func construct(ctor string, n int, dest io.Writer, st ws.State, op ws.OpCode) *wsutil.Writer {
+	switch ctor {
+	case "new":
+		return wsutil.NewWriter(dest, st, op)
+	case "size":
+		return wsutil.NewWriterSize(dest, st, op, n)
+	case "bufsize":
+		return wsutil.NewWriterBufferSize(dest, st, op, n)
+	case "buffer":
+		return wsutil.NewWriterBuffer(dest, st, op, make([]byte, n))
+	case "get":
+		return wsutil.GetWriter(dest, st, op, n)
+	}
+	panic("wh: unknown ctor " + ctor)
+}
+
+// secondLife builds the writer's previous life, uses it and hands it over by
+// Reset or through the pool.
+func secondLife(c Config, dest io.Writer) *wsutil.Writer {
+	pst := ws.StateServerSide
+	if c.PrevClient {
+		pst = ws.StateClientSide
+	}
+	pop := ws.OpCode(c.PrevOp)
+	trash := tx.NewRec()
+	ctor := c.Ctor
+	if c.Reuse == "pool" && poolClass(c.N) {
+		ctor = "size"
+	}
+	w := construct(ctor, c.N, trash, pst, pop)
+	w.SetExtensions(Extensions(ExtCompressed | ExtRsv2)...)
+	if c.PrevUse&4 != 0 {
+		w.DisableFlush()
+	}
+	switch c.PrevUse & 3 {
+	case 1:
+		w.Write([]byte{0xAA})
+		w.Flush()
+	case 2:
+		w.Write([]byte{0xBB})
+	case 3:
+		w.Write(Fill(7, w.Size()+1))
+	}
+	if c.Reuse == "pool" {
+		wsutil.PutWriter(w)
+		return wsutil.GetWriter(dest, c.State(), ws.OpCode(c.Op), c.N)
+	}
+	w.Reset(dest, c.State(), ws.OpCode(c.Op))
 	return w
 }
 
